@@ -117,9 +117,16 @@ Definition parse_colon_prefix (s : text) : option (text * text) := split_at 58%N
 Definition tH : text := [72%N].
 Definition tP : text := [80%N].
 Definition tE : text := [69%N].
-(* `pair[0] in "HP"` is a SUBSTRING test: "", "H", "P", "HP" *)
-Definition in_HP (a : text) : bool :=
-  text_eqb a [] || text_eqb a tH || text_eqb a tP || text_eqb a [72%N; 80%N].
+(* `pair[0] in ("H", "P")` *)
+Definition in_HP (a : text) : bool := text_eqb a tH || text_eqb a tP.
+
+(* str.startswith *)
+Fixpoint text_starts_with (pre s : text) : bool :=
+  match pre, s with
+  | [], _ => true
+  | x :: p', y :: s' => N.eqb x y && text_starts_with p' s'
+  | _ :: _, [] => false
+  end.
 
 Definition hexval (c : N) : option N :=
   if (48 <=? c)%N && (c <=? 57)%N then Some (c - 48)%N
@@ -185,6 +192,10 @@ Definition on_curve (pt : Z * Z) : bool :=
 
 Definition valid_exponent (se : Z) : bool := (1 <=? se) && (se <? curve_n).
 
+(* Key.__init__: coordinates are field elements, 0 <= x < p and 0 <= y < p *)
+Definition in_range (pt : Z * Z) : bool :=
+  let '(x, y) := pt in (0 <=? x) && (x <? curve_p) && (0 <=? y) && (y <? curve_p).
+
 (* Point(x, y, curve): the constructor checks the equation *)
 Definition mk_point (x y : Z) : outcome (Z * Z) :=
   if on_curve (x, y) then Ret (x, y) else Raise E_NOPOINT.
@@ -216,12 +227,12 @@ Definition pick (odd : bool) (pp : (Z * Z) * (Z * Z)) : Z * Z := if odd then snd
 Definition key_material_private (se : Z) : outcome keymat :=
   if valid_exponent se then
     let pt := mulG se in
-    if on_curve pt then Ret (Prv se pt) else Raise E_PUBPAIR
+    if on_curve pt then (if in_range pt then Ret (Prv se pt) else Raise E_PUBPAIR) else Raise E_PUBPAIR
   else Raise E_SECRET.
 
-(* Key.__init__ with a public pair: contains_point works modulo p, no range test *)
+(* Key.__init__ with a public pair: the curve equation modulo p, then the range test *)
 Definition key_material_public (pt : Z * Z) : outcome keymat :=
-  if on_curve pt then Ret (Pub pt) else Raise E_PUBPAIR.
+  if on_curve pt then (if in_range pt then Ret (Pub pt) else Raise E_PUBPAIR) else Raise E_PUBPAIR.
 
 (* network.keys.private(se, is_compressed) *)
 Definition keys_private (se : Z) (compressed : bool) : outcome obj :=
@@ -383,13 +394,12 @@ Definition public_pair_step (c : N) (s : text) (point : option (Z * Z)) : outcom
     end
   end.
 
-Definition public_pair (net : netcfg) (s : text) : result :=
-  bind (keys_private 1 true) (fun _ =>
+(* the loop over "," and "/": Ret None = nothing to build a key from; Ret (Some pt) = the point handed to keys.public *)
+Definition public_pair_point (s : text) : outcome (option (Z * Z)) :=
   match public_pair_step 44%N s None with          (* "," *)
   | Ret (Some pt1) =>
     match public_pair_step 47%N s pt1 with          (* "/" *)
-    | Ret (Some (Some pt)) => bind (keys_public_pair pt) (fun o => Ret (Some o))
-    | Ret (Some None) => Ret None
+    | Ret (Some r) => Ret r
     | Ret None => Ret None
     | Raise e => Raise e
     | OutOfFuel => OutOfFuel
@@ -397,12 +407,26 @@ Definition public_pair (net : netcfg) (s : text) : result :=
   | Ret None => Ret None
   | Raise e => Raise e
   | OutOfFuel => OutOfFuel
-  end).
+  end.
 
-(* ParseAPI.sec: the colon prefix is compared with the WIF prefix (bytes), str == bytes is always
-   False in Python 3, so the text is never stripped; blanket except *)
+(* `if point: return self._network.keys.public(point)` is outside any try: Key.__init__'s range test escapes *)
+Definition public_pair (net : netcfg) (s : text) : result :=
+  bind (keys_private 1 true) (fun _ =>
+  bind (public_pair_point s) (fun r =>
+  match r with
+  | Some pt => bind (keys_public_pair pt) (fun o => Ret (Some o))
+  | None => Ret None
+  end)).
+
+(* ParseAPI.sec: a leading SEC text prefix of the network is stripped; blanket except *)
+Definition strip_sec_prefix (net : netcfg) (s : text) : text :=
+  match n_sec_prefix net with
+  | [] => s
+  | pre => if text_starts_with pre s then drop (length pre) s else s
+  end.
+
 Definition sec (net : netcfg) (s : text) : result :=
-  match h2b s with
+  match h2b (strip_sec_prefix net s) with
   | None => Ret None
   | Some b => catch_all (key_from_sec b)
   end.
@@ -456,7 +480,7 @@ Definition seed_secret (s : text) : outcome (option bytes) :=
     else
       match utf8 b with
       | Some m => Ret (Some m)
-      | None => Raise E_VALUE          (* UnicodeEncodeError, outside any try *)
+      | None => Ret None               (* UnicodeEncodeError is caught *)
       end
   end.
 
@@ -467,13 +491,8 @@ Definition bip32_seed (net : netcfg) (s : text) : result :=
   | Some secret => bind (from_master_secret secret) (fun o => Ret (Some o))
   end).
 
-(* hd_seed: NetworkKeys has no attribute hd_seed *)
-Definition hd_seed (net : netcfg) (s : text) : result :=
-  bind (seed_secret s) (fun m =>
-  match m with
-  | None => Ret None
-  | Some _ => Raise E_ATTR
-  end).
+(* hd_seed(s) = self.bip32_seed(s) *)
+Definition hd_seed (net : netcfg) (s : text) : result := bip32_seed net s.
 
 (* ---------------------------------------------------------------------------------------------- *)
 (* electrum *)
@@ -611,6 +630,16 @@ Definition sec_bytes (pt : Z * Z) (compressed : bool) : outcome bytes :=
 Definition public_key_text (net : netcfg) (o : obj) : outcome text :=
   match o with
   | OKey (Pub pt) c => bind (sec_bytes pt c) (fun b => Ret (n_sec_prefix net ++ b2h b))
+  | _ => Raise E_OTHER
+  end.
+
+(* ElectrumWallet.as_text(): "E:" + initial key, or "E:" + hex(serialize()) *)
+Definition electrum_text (o : obj) : outcome text :=
+  match o with
+  | OElectrum (Some blob) _ => Ret (tE ++ [58%N] ++ b2h blob)
+  | OElectrum None (Prv se _) => bind (to_bytes_32 se) (fun b => Ret (tE ++ [58%N] ++ b2h b))
+  | OElectrum None (Pub pt) =>
+    bind (to_bytes_32 (fst pt)) (fun xs => bind (to_bytes_32 (snd pt)) (fun ys => Ret (tE ++ [58%N] ++ b2h (xs ++ ys))))
   | _ => Raise E_OTHER
   end.
 
